@@ -157,7 +157,26 @@ package phase0
 //@ func (attestation *Attestation) ConvertToIndexed(spec, committee) (indexed, err)
 //@   trusted
 //@   requires attestation != nil
-//@   ensures err == nil ==> indexed != nil
+//@   ensures err == nil ==> indexed != nil && bl_len(attestation.AggregationBits) == len(committee) && indexed.Data == attestation.Data && indexed.Signature == attestation.Signature
+
+// process_attestation's checks (C03): target epoch is the previous or current epoch and is the epoch of the
+// attestation's slot; inclusion window; committee index below the committee count of the target epoch; source is
+// the matching justified checkpoint; the attestation in indexed form is valid (bits match the committee length).
+//@ sort AttT = Attestation
+//@ func ProcessAttestation(spec, epc, state, attestation) err
+//@   property C03
+//@   panics off
+//@   opt weakcalls
+//@   opt inline=closures
+//@   requires spec != nil && spec.SLOTS_PER_EPOCH != 0 && epc != nil && state != nil && attestation != nil && epc.Spec == spec && epc.ValidatorPubkeyCache != nil
+//@   requires tables: epc.PreviousEpoch != nil && epc.CurrentEpoch != nil && epc.NextEpoch != nil && sh_wf(epc.PreviousEpoch.Committees, spec.SLOTS_PER_EPOCH) && sh_wf(epc.CurrentEpoch.Committees, spec.SLOTS_PER_EPOCH) && sh_wf(epc.NextEpoch.Committees, spec.SLOTS_PER_EPOCH)
+//@   assigns anything
+//@   ensures target: err == nil ==> !st_slot_err(state) && (let cur := st_slot(state) / spec.SLOTS_PER_EPOCH in ite(cur == 0, 0, cur - 1) <= old(attestation.Data.Target.Epoch) && old(attestation.Data.Target.Epoch) <= cur)
+//@   ensures target_slot: err == nil ==> old(attestation.Data.Target.Epoch) == old(attestation.Data.Slot) / spec.SLOTS_PER_EPOCH
+//@   ensures window: err == nil ==> st_slot(state) <= (old(attestation.Data.Slot) + spec.SLOTS_PER_EPOCH) % 18446744073709551616 && (old(attestation.Data.Slot) + spec.MIN_ATTESTATION_INCLUSION_DELAY) % 18446744073709551616 <= st_slot(state)
+//@   ensures source: err == nil ==> (old(attestation.Data.Target.Epoch) == st_slot(state) / spec.SLOTS_PER_EPOCH ==> !st_curjust_err(state) && old(attestation.Data.Source) == st_curjust(state)) && (old(attestation.Data.Target.Epoch) != st_slot(state) / spec.SLOTS_PER_EPOCH ==> !st_prevjust_err(state) && old(attestation.Data.Source) == st_prevjust(state))
+//@   ensures index: err == nil ==> (let te := old(attestation.Data.Target.Epoch) in (te == old(epc.PreviousEpoch.Epoch) ==> old(attestation.Data.Index) < old(len(epc.PreviousEpoch.Committees[0]))) && (te != old(epc.PreviousEpoch.Epoch) && te == old(epc.CurrentEpoch.Epoch) ==> old(attestation.Data.Index) < old(len(epc.CurrentEpoch.Committees[0]))) && (te != old(epc.PreviousEpoch.Epoch) && te != old(epc.CurrentEpoch.Epoch) ==> te == old(epc.NextEpoch.Epoch) && old(attestation.Data.Index) < old(len(epc.NextEpoch.Committees[0]))))
+//@   ensures indexed: err == nil ==> (exists ia IdxAttT :: idxatt_ok(spec, epc, state, ia) && ia.Data == old(attestation.Data) && ia.Signature == old(attestation.Signature))
 
 // ---------------------------------------------------------------- slashability predicates (C12, C03)
 // is_slashable_attestation_data: double vote (different data, same target epoch) or surround vote
